@@ -9,6 +9,7 @@
 (*   "I"  the string INBOX                 pattern; ordinary characters in *)
 (*   "i"  a case variant of INBOX          a NAME)                         *)
 (*   "n"  a newline character             "&"  only in (garbled) output    *)
+(*   "u"  a name part the store cannot hold (see Unstorable)               *)
 (*   anything else: an ordinary letter, concretised by the harness (plain  *)
 (*   letters, with space / quote / backslash / non-ASCII / ...).           *)
 (*                                                                         *)
@@ -20,13 +21,15 @@
 (*   NextAsIs : the one outcome pymap is believed to produce (a selection  *)
 (*              FROM Outcomes, so a refinement by construction); this is   *)
 (*              the deterministic graph that is replayed on the server.    *)
-(* Store says which backend is modelled: "dict", or maildir in the         *)
-(* Maildir++ layout ("pp") or the filesystem layout ("fs").  The allowed   *)
-(* outcomes are the same for every store except for the names a store      *)
-(* cannot hold (Unstorable: CREATE / RENAME to them may answer NO); Store  *)
-(* otherwise only selects, in NextAsIs, which allowed outcome the backend  *)
-(* is believed to produce, and it scopes the maildir deviations.  A        *)
-(* deviation may end the connection without a tagged answer (r.bye).       *)
+(* `store` says which backend a behaviour is about (chosen in Init from    *)
+(* Stores, then constant): "dict", or maildir in the Maildir++ layout      *)
+(* ("pp") or in the filesystem layout ("fs").  The allowed outcomes are    *)
+(* the same for every store, except for the names a store cannot hold      *)
+(* (Unstorable: CREATE / RENAME to them, SUBSCRIBE of a name with a line   *)
+(* break on maildir, may answer NO).  Otherwise the store only selects, in *)
+(* NextAsIs, which allowed outcome the backend is believed to produce, and *)
+(* it scopes the deviations (DevFor).  A deviation may end the connection  *)
+(* without a tagged answer: "* BYE" (r.bye).                               *)
 (* `last` is the abstract result of the last command, `probe` what         *)
 (* LIST "" * and LSUB "" * may answer in the current state (derived).      *)
 (* Commands are issued only when last = Null; Forget resets it, so that    *)
@@ -43,15 +46,16 @@ CONSTANTS CreateArgs,   \* names given to CREATE
           InitSets,     \* set of <<set of names that exist, set of subscribed names>>
           MaxMsgs,      \* APPEND is not issued to a mailbox holding MaxMsgs
           MaxLen,       \* RENAME is not issued when it would build a longer name
-          Dev,          \* deviations switched on
-          Store         \* "dict" | "pp" | "fs" (maildir, layouts '++' and 'fs')
+          AllOpen,      \* deviations switched on (each applies to its stores only)
+          Stores        \* subset of {"dict", "pp", "fs"} (maildir layouts '++' and 'fs')
 
 VARIABLES mbx,          \* [existing name -> number of messages]
           sub,          \* set of subscribed names
           last,         \* Null or [cmd, r]
-          probe         \* derived: allowed answers to LIST "" * / LSUB "" *
+          probe,        \* derived: allowed answers to LIST "" * / LSUB "" *
+          store         \* the backend of this behaviour (never changes)
 
-vars == <<mbx, sub, last, probe>>
+vars == <<mbx, sub, last, probe, store>>
 
 SEP   == "/"
 Inbox == <<"I">>
@@ -67,7 +71,16 @@ MaildirDev == {"MaildirCreateExistingBye", "MaildirMissingSuperiorBye",
                "MaildirRenameInboxRefused", "MaildirLsubOmitsMissingSubscribed",
                "MaildirSubscriptionNewlineSplit", "MaildirFsLeadingDelimiterAlias",
                "MaildirFsRenameIntoInferiorBye"}
+FsOnlyDev == {"MaildirFsLeadingDelimiterAlias", "MaildirFsRenameIntoInferiorBye"}
+\* maildir shares the session layer and ListTree with dict, not the mailbox set
+DictOnlyDev == {"LsubOmitsMissingSubscribed", "RenameInboxMovesInferiors"}
+DevFor(st) == IF st = "dict" THEN AllDev
+              ELSE (AllDev \ DictOnlyDev)
+                   \cup (IF st = "fs" THEN MaildirDev ELSE MaildirDev \ FsOnlyDev)
+Store   == store
+Dev     == AllOpen \cap DevFor(store)
 Maildir == Store \in {"pp", "fs"}
+AllKnown == AllDev \cup MaildirDev
 
 Norm(a) == IF a = <<"i">> THEN Inbox ELSE a
 Range(s) == {s[k] : k \in 1..Len(s)}
@@ -93,13 +106,13 @@ Unstorable(n) == /\ Maildir /\ n # <<>>
                  /\ \/ "u" \in Range(n)
                     \/ Store = "fs" /\ HasEmptyPart(n)
 \* a subscription file with one name per line: the runs between newlines
+\* (the empty run before a leading, after a trailing newline: the empty name)
 RECURSIVE Pieces(_)
 Pieces(n) ==
   LET idx == {k \in 1..Len(n) : n[k] = "n"} IN
-  IF n = <<>> THEN {}
-  ELSE IF idx = {} THEN {n}
+  IF idx = {} THEN {n}
   ELSE LET k == CHOOSE k \in idx : \A j \in idx : k <= j IN
-       (IF k = 1 THEN {} ELSE {SubSeq(n, 1, k - 1)}) \cup Pieces(SubSeq(n, k + 1, Len(n)))
+       {SubSeq(n, 1, k - 1)} \cup Pieces(SubSeq(n, k + 1, Len(n)))
 SplitAll(S) == UNION {Pieces(n) : n \in S}
 
 ---------------------------------------------------------------------------
@@ -152,12 +165,12 @@ ListVariant(E0, X0, lsub, canon, ctag, D) ==
   LET lead == "LeadingDelimiterDropped" \in D
       \* deviation: a leading delimiter is lost (the tree is keyed by the parts
       \* of the name and the empty first part is not joined back)
-      Strip(n) == IF lead /\ n[1] = SEP THEN Tail(n) ELSE n
+      Strip(n) == IF lead /\ n # <<>> /\ n[1] = SEP THEN Tail(n) ELSE n
       E    == {Strip(n) : n \in E0}
       X    == {Strip(n) : n \in X0}
       \* the level above "/a" is the root, whose name is empty: a server may
       \* list it (\Noselect); the deviation lists it like any other level
-      root == IF \E n \in E0 : n[1] = SEP THEN {<<>>} ELSE {}
+      root == IF \E n \in E0 : n # <<>> /\ n[1] = SEP THEN {<<>>} ELSE {}
       impl == (Implied(E) \cup (IF lead THEN root ELSE {})) \ E
       M(n) == MatchX(canon, n, D)
       ex   == {n \in E : M(n)}
@@ -187,7 +200,7 @@ ListVariants(m, s, lsub, ref, pat) ==
       dl == (Dev \cap ListDevs)
             \ ((IF HasTok(EI, "n") THEN {} ELSE {"StarSkipsNewline",
                     "EndAnchorBeforeTrailingNewline", "NewlineEncodedAsAmpersand"})
-               \cup (IF \E n \in EI : n[1] = SEP THEN {}
+               \cup (IF \E n \in EI : n # <<>> /\ n[1] = SEP THEN {}
                      ELSE {"LeadingDelimiterDropped"}))
       \* maildir: the subscriptions are lines of a file, a name with a newline
       \* comes back as its pieces (a deviation of SUBSCRIBE, which shows here for
@@ -423,6 +436,10 @@ RenameAsIs0(a, b) ==
      ELSE IF devs # {}
      THEN Undeviate(IF still # {} THEN CHOOSE o \in still : TRUE ELSE CHOOSE o \in devs : TRUE,
                     outs)
+     \* (once maildir looks first, it looks like dict: a level of hierarchy that
+     \* is no mailbox is in the way, too; nested directories cannot go into themselves)
+     ELSE IF t \in Implied(DOMAIN mbx) /\ "MaildirRenameOntoExisting" \notin Dev
+     THEN CHOOSE o \in nos : TRUE
      ELSE IF Store = "fs" /\ Inferior(t, f) THEN CHOOSE o \in nos : TRUE
      ELSE IF Store = "fs" /\ par # {}
      THEN CHOOSE o \in par : \A p \in par : p.r.fresh \subseteq o.r.fresh
@@ -454,21 +471,18 @@ SubscribeAsIs(a) ==
      ELSE IF uns # {} THEN CHOOSE o \in uns : TRUE
      ELSE CHOOSE o \in outs : o.r.ok
 
+\* (the deviation: the name is looked for among the lines read, where it is not)
 UnsubscribeOutcomes(a) ==
-  LET n == Norm(a)
-      nl == Maildir /\ "n" \in Range(n)
-  IN
+  LET n == Norm(a) IN
   {Out(R0(TRUE, {}, {}), mbx, sub \ {n})}
   \cup (IF n \notin sub THEN {No({"refuse"})} ELSE {})
-  \cup (IF nl THEN {No({"unstorable"})} ELSE {})
-  \cup (IF nl /\ NLSplit \in Dev THEN {Same(R0(TRUE, {}, {NLSplit}))} ELSE {})
+  \cup (IF Maildir /\ "n" \in Range(n) /\ NLSplit \in Dev
+        THEN {Same(R0(TRUE, {}, {NLSplit}))} ELSE {})
 
 UnsubscribeAsIs(a) ==
   LET outs == UnsubscribeOutcomes(a)
       devs == {o \in outs : o.r.dev # {}}
-      uns  == {o \in outs : o.r.tag = {"unstorable"}}
   IN IF devs # {} THEN Undeviate(CHOOSE o \in devs : TRUE, outs)
-     ELSE IF uns # {} THEN CHOOSE o \in uns : TRUE
      ELSE CHOOSE o \in outs : o.r.ok
 
 \* STATUS and SELECT (the harness selects, fetches all UIDs, closes)
@@ -506,8 +520,9 @@ Apply(c, o) == /\ last = Null
                /\ mbx' = o.m /\ sub' = o.s
                /\ last' = [cmd |-> c, r |-> o.r]
                /\ probe' = IF o.m = mbx /\ o.s = sub THEN probe ELSE Probe(o.m, o.s)
+               /\ store' = store
 
-Forget == last # Null /\ last' = Null /\ UNCHANGED <<mbx, sub, probe>>
+Forget == last # Null /\ last' = Null /\ UNCHANGED <<mbx, sub, probe, store>>
 
 \* --- any allowed outcome
 CreateR(a)      == \E o \in CreateOutcomes(a)      : Apply(<<"create", a>>, o)
@@ -564,7 +579,8 @@ InitNames(S) ==
                 ELSE {} : n \in S}
 InitSub(S) == IF Maildir /\ NLSplit \notin Dev THEN {n \in S : "n" \notin Range(n)} ELSE S
 
-Init == /\ \E i \in InitSets :
+Init == /\ store \in Stores
+        /\ \E i \in InitSets :
              /\ mbx = [n \in InitNames(i[1]) \cup {Inbox} |-> 0]
              /\ sub = InitSub(i[2])
         /\ last = Null
@@ -735,6 +751,11 @@ OddSub    == {n_u, n_Sa}
 OddAppend == {n_Sa, n_au}
 OddListQ  == {<<n_e, n_st>>, <<n_e, n_Sa>>, <<n_e, <<"/", "%">>>>}
 OddLsubQ  == {<<n_e, n_st>>}
+\* (the same, smaller: every allowed outcome, for the sanity properties)
+OddRCreate == {n_u, n_a, n_au, n_Sa}
+OddRName   == {n_a}
+OddRRename == {<<n_a, n_u>>, <<n_b, n_Sa>>, <<n_a, n_b>>}
+OddRSub    == {n_u}
 
 \* a name with a leading delimiter
 LeadInit  == {<<{n_Sa}, {n_Sa}>>, <<{n_Sa, n_a}, {}>>, <<{<<"/", "a", "/", "b">>}, {}>>}
